@@ -1,6 +1,7 @@
 """C19 - generated protocol objects are immutable snapshots."""
 from eolib.data.eo_writer import EoWriter
 from eolib.data.eo_reader import EoReader
+from eolib.protocol.serialization_error import SerializationError
 from vh_gentree import gen_unit, gen_value
 from vh_refsem import collect_kwargs, pascal, build_value
 
@@ -60,6 +61,15 @@ def ser(cls, obj):
     return w.to_bytearray()
 
 
+def ser_outcome(cls, obj):
+    try:
+        return ("bytes", ser(cls, obj))
+    except ValueError:
+        return ("ValueError", None)
+    except SerializationError:
+        return ("SerializationError", None)
+
+
 def grow_lists(types, instrs, kw, tag, cfg):
     """append a fresh valid element to every list the object was built from (also to empty ones)"""
     n = 0
@@ -100,6 +110,11 @@ def immutable(types, desc, cfg):
     rd = EoReader(a)
     rd.chunked_reading_mode = desc["entry"]
     back = cls.deserialize(rd)
-    b = ser(cls, back)
-    check(ser(cls, back) == b, "serializing a deserialized instance twice yields identical bytes")
+    # a deserialized instance may hold values the wire cannot carry (e.g. 254 decoded from a 0xFF byte of an
+    # ambiguous layout): then serialize refuses it - both times alike
+    b1 = ser_outcome(cls, back)
+    b2 = ser_outcome(cls, back)
+    check(b1[0] == b2[0], "serializing a deserialized instance twice ends the same way")
+    if b1[0] == "bytes" and b2[0] == "bytes":
+        check(b1[1] == b2[1], "serializing a deserialized instance twice yields identical bytes")
     no_assign(back, "byte_size", 0, desc["name"] + "(deserialized).byte_size")
